@@ -330,16 +330,16 @@ Qed.
 Definition pair_ok (ip : Z -> bool) (l : label) : bool := json_ok_str ip 0 (fst l) && json_ok_str ip 0 (snd l).
 
 Lemma enc_pair_append ip l tail :
-  append (enc_pair ip l) tail =
+  append (enc_pair_q ip l) tail =
   String dq (append (quote_body ip 0 (fst l)) (String dq (String ":"
     (String dq (append (quote_body ip 0 (snd l)) (String dq tail)))))).
 Proof.
-  unfold enc_pair. rewrite append_assoc, go_quote_append. cbn [append]. now rewrite go_quote_append.
+  unfold enc_pair_q. rewrite append_assoc, go_quote_append. cbn [append]. now rewrite go_quote_append.
 Qed.
 
 (* one member followed by [tail]: the reader gets the pair and stands at [tail] *)
 Lemma parse_members_step ip l tail f : pair_ok ip l = true ->
-  parse_members (S f) (append (enc_pair ip l) tail) =
+  parse_members (S f) (append (enc_pair_q ip l) tail) =
     match skip_ws tail with
     | String d r5 =>
       if byte d =? 44 then omap (cons l) (parse_members f r5)
@@ -359,21 +359,21 @@ Proof.
 Qed.
 
 Lemma enc_join_cons2 ip l m r :
-  enc_join ip (l :: m :: r) = append (enc_pair ip l) (String "," (enc_join ip (m :: r))).
+  enc_join_q ip (l :: m :: r) = append (enc_pair_q ip l) (String "," (enc_join_q ip (m :: r))).
 Proof. reflexivity. Qed.
 
-Lemma enc_pair_head ip l tail : exists r, append (enc_pair ip l) tail = String dq r.
+Lemma enc_pair_head ip l tail : exists r, append (enc_pair_q ip l) tail = String dq r.
 Proof. rewrite enc_pair_append. eexists. reflexivity. Qed.
 
 Lemma parse_members_enc_join ip : forall ls, ls <> [] -> forallb (pair_ok ip) ls = true ->
   forall fuel, (List.length ls <= fuel)%nat ->
-  parse_members fuel (append (enc_join ip ls) "}") = Some ls.
+  parse_members fuel (append (enc_join_q ip ls) "}") = Some ls.
 Proof.
   induction ls as [|l ls IH]; intros Hne Hs fuel Hf; [congruence|].
   cbn [forallb] in Hs. apply andb_true_iff in Hs. destruct Hs as [Hl Hr].
   destruct fuel as [|f]; [cbn in Hf; lia|].
   destruct ls as [|m r].
-  - cbn [enc_join]. rewrite (parse_members_step ip l "}" f Hl).
+  - cbn [enc_join_q]. rewrite (parse_members_step ip l "}" f Hl).
     rewrite (skip_ws_nonws "}"%char) by reflexivity.
     change (byte "}" =? 44) with false. change (byte "}" =? 125) with true. reflexivity.
   - rewrite enc_join_cons2, append_assoc. rewrite (parse_members_step ip l _ f Hl).
@@ -382,30 +382,30 @@ Proof.
     rewrite IH; [reflexivity|discriminate|assumption|cbn [List.length] in *; lia].
 Qed.
 
-Lemma enc_join_length ip ls : (List.length ls <= String.length (enc_join ip ls))%nat.
+Lemma enc_join_length ip ls : (List.length ls <= String.length (enc_join_q ip ls))%nat.
 Proof.
   induction ls as [|l ls IH]; [cbn; lia|].
-  assert (Hp : forall l, (1 <= String.length (enc_pair ip l))%nat).
+  assert (Hp : forall l, (1 <= String.length (enc_pair_q ip l))%nat).
   { intros x. destruct (enc_pair_head ip x EmptyString) as [r Hr].
-    assert (E : enc_pair ip x = append (enc_pair ip x) EmptyString).
-    { clear. induction (enc_pair ip x) as [|c s IHs]; cbn [append]; [reflexivity|now rewrite <- IHs]. }
+    assert (E : enc_pair_q ip x = append (enc_pair_q ip x) EmptyString).
+    { clear. induction (enc_pair_q ip x) as [|c s IHs]; cbn [append]; [reflexivity|now rewrite <- IHs]. }
     rewrite E, Hr. cbn [String.length]. lia. }
   destruct ls as [|m r].
-  - cbn [enc_join List.length]. apply Hp.
+  - cbn [enc_join_q List.length]. apply Hp.
   - rewrite enc_join_cons2, length_append. cbn [String.length List.length] in *. specialize (Hp l). lia.
 Qed.
 
 (* the round trip on the exact class: printable ASCII, \b \f \n \r \t, well-formed printable runes and
    well-formed non-printable runes below U+10000 *)
 Lemma label_document_roundtrip_ok ip ls :
-  labels_json_ok ip ls = true -> json_decode (encode_labels ip ls) = Some ls.
+  labels_json_ok ip ls = true -> json_decode (encode_labels_quote ip ls) = Some ls.
 Proof.
-  intros Hs. unfold encode_labels, json_decode.
+  intros Hs. unfold encode_labels_quote, json_decode.
   rewrite (skip_ws_nonws "{"%char) by reflexivity. change (byte "{" =? 123) with true. cbv iota.
   destruct ls as [|l r].
   - reflexivity.
-  - destruct (enc_pair_head ip l (append (match r with [] => EmptyString | _ => String "," (enc_join ip r) end) "}")) as [x Hx].
-    assert (E : append (enc_join ip (l :: r)) "}" = String dq x).
+  - destruct (enc_pair_head ip l (append (match r with [] => EmptyString | _ => String "," (enc_join_q ip r) end) "}")) as [x Hx].
+    assert (E : append (enc_join_q ip (l :: r)) "}" = String dq x).
     { rewrite <- Hx. destruct r as [|m r]; [reflexivity|]. rewrite enc_join_cons2, append_assoc. reflexivity. }
     rewrite E. rewrite (skip_ws_nonws dq) by reflexivity. rewrite byte_dq. change (34 =? 125) with false. cbv iota.
     rewrite <- E. apply parse_members_enc_join; [discriminate|exact Hs|].
@@ -427,7 +427,7 @@ Qed.
 
 (* the partial round trip: label sets whose bytes are printable ASCII or \b \f \n \r \t *)
 Lemma label_document_roundtrip_safe ip ls :
-  labels_safe ls = true -> json_decode (encode_labels ip ls) = Some ls.
+  labels_safe ls = true -> json_decode (encode_labels_quote ip ls) = Some ls.
 Proof. intros H. apply label_document_roundtrip_ok. now apply labels_safe_is_ok. Qed.
 
 (* the full statement is false of the model: Go's escapes \x01 \a \v \x7f \U... are not JSON *)
@@ -439,7 +439,7 @@ Definition bad_label_sets : list (list label) :=
     [("a"%string, String (chr 255) EmptyString)] ].
 
 Lemma label_document_roundtrip_fails :
-  forall ls, In ls bad_label_sets -> json_decode (encode_labels (isprint_tbl []) ls) = None.
+  forall ls, In ls bad_label_sets -> json_decode (encode_labels_quote (isprint_tbl []) ls) = None.
 Proof.
   intros ls H. cbn [bad_label_sets In] in H.
   repeat (destruct H as [<-|H]; [vm_compute; reflexivity|]). contradiction.
@@ -451,7 +451,7 @@ Definition ex_safe_labels : list label :=
   [("q"%string, append "say " (String dq (append "hi" (String dq (append " " (String bs (append " there" (String (chr 10) (String (chr 9) EmptyString)))))))));
    ("env"%string, "prod"%string)].
 Example roundtrip_guard_satisfiable :
-  labels_safe ex_safe_labels = true /\ json_decode (encode_labels (isprint_tbl []) ex_safe_labels) = Some ex_safe_labels.
+  labels_safe ex_safe_labels = true /\ json_decode (encode_labels_quote (isprint_tbl []) ex_safe_labels) = Some ex_safe_labels.
 Proof. split; vm_compute; reflexivity. Qed.
 
 (* fingerprint_protocol_independent: an instance with two different wire orders and protocols *)
@@ -528,7 +528,7 @@ Proof.
 Qed.
 
 Lemma parse_members_pair_bad ip l tail fuel : pair_ok ip l = false ->
-  parse_members fuel (append (enc_pair ip l) tail) = None.
+  parse_members fuel (append (enc_pair_q ip l) tail) = None.
 Proof.
   intros Hs. destruct fuel as [|f]; [reflexivity|]. destruct l as [k v]. unfold pair_ok in Hs. cbn [fst snd] in Hs.
   rewrite enc_pair_append. cbn [fst snd].
@@ -542,7 +542,7 @@ Proof.
 Qed.
 
 Lemma parse_members_enc_join_bad ip : forall ls, forallb (pair_ok ip) ls = false ->
-  forall fuel, parse_members fuel (append (enc_join ip ls) "}") = None.
+  forall fuel, parse_members fuel (append (enc_join_q ip ls) "}") = None.
 Proof.
   induction ls as [|l ls IH]; intros Hs fuel; [discriminate Hs|].
   cbn [forallb] in Hs. destruct (pair_ok ip l) eqn:El.
@@ -552,18 +552,18 @@ Proof.
     cbn [append]. rewrite (skip_ws_nonws ","%char) by reflexivity.
     change (byte "," =? 44) with true. cbv iota. now rewrite (IH Hs f).
   - destruct ls as [|m r].
-    + cbn [enc_join]. now apply parse_members_pair_bad.
+    + cbn [enc_join_q]. now apply parse_members_pair_bad.
     + rewrite enc_join_cons2, append_assoc. now apply parse_members_pair_bad.
 Qed.
 
 Lemma label_document_not_json ip ls :
-  labels_json_ok ip ls = false -> json_decode (encode_labels ip ls) = None.
+  labels_json_ok ip ls = false -> json_decode (encode_labels_quote ip ls) = None.
 Proof.
-  intros Hs. unfold encode_labels, json_decode.
+  intros Hs. unfold encode_labels_quote, json_decode.
   rewrite (skip_ws_nonws "{"%char) by reflexivity. change (byte "{" =? 123) with true. cbv iota.
   destruct ls as [|l r]; [discriminate Hs|].
-  destruct (enc_pair_head ip l (append (match r with [] => EmptyString | _ => String "," (enc_join ip r) end) "}")) as [x Hx].
-  assert (E : append (enc_join ip (l :: r)) "}" = String dq x).
+  destruct (enc_pair_head ip l (append (match r with [] => EmptyString | _ => String "," (enc_join_q ip r) end) "}")) as [x Hx].
+  assert (E : append (enc_join_q ip (l :: r)) "}" = String dq x).
   { rewrite <- Hx. destruct r as [|m r]; [reflexivity|]. rewrite enc_join_cons2, append_assoc. reflexivity. }
   rewrite E. rewrite (skip_ws_nonws dq) by reflexivity. rewrite byte_dq. change (34 =? 125) with false. cbv iota.
   rewrite <- E. now apply parse_members_enc_join_bad.
@@ -571,7 +571,7 @@ Qed.
 
 (* exact characterisation, in the model, of the label sets whose stored document is JSON for them *)
 Lemma label_document_roundtrip_iff ip ls :
-  json_decode (encode_labels ip ls) = Some ls <-> labels_json_ok ip ls = true.
+  json_decode (encode_labels_quote ip ls) = Some ls <-> labels_json_ok ip ls = true.
 Proof.
   split.
   - intros H. destruct (labels_json_ok ip ls) eqn:E; [reflexivity|].
